@@ -1,5 +1,5 @@
 #!/bin/bash
-cd /verif
+cd "$(dirname "$0")/.."
 for sd in "$@"; do
   for p in C02 C09 C12 C16 C19; do
     s=$(date +%s); VERIF_SEED=$sd ./check $p > /tmp/fs_${sd}_$p.out 2> /tmp/fs_${sd}_$p.err; rc=$?
